@@ -416,3 +416,40 @@ def rule_rowsep(rep, res, entry=None, allowed=None):
                       msg=(f"the value stored into this per-sample Parameter depends on a reduction over the sample axis "
                            f"({', '.join(b.split('@')[1] for b in bad)}): row i of the result depends on other rows")
                       if bad else "no cross-sample reduction in its history")
+
+
+def rule_purity(rep, res, entry=None, rule="R-PURITY", ignore_origins=()):
+    """R-PURITY: no in-place write (x[...] = v, x op= v, mutating method) whose target may share memory with a
+    caller-supplied array or a stored field of the estimator."""
+    entry = entry or res.entry
+    n = 0
+    seen = set()
+    for ev in res.events("inplace"):
+        t = ev.d["target"]
+        if t.tag("kind") in ("list", "dict", "int") or t.tag("isnum"):
+            continue
+        k = (ev.loc, ev.text())
+        if k in seen:
+            continue
+        seen.add(k)
+        n += 1
+        fr = t.fresh
+        if fr == "FRESH":
+            rep.holds(rule, "in-place write targets a fresh array", where=ev.loc, construct=ev.text(), entry=entry,
+                      config=res.config, msg="target allocated inside the call")
+        elif fr is None:
+            rep.undecided(rule, "in-place write targets a fresh array", where=ev.loc, construct=ev.text(), entry=entry,
+                          config=res.config)
+        else:
+            origins = sorted(o for o in fr[1] if o not in ignore_origins)
+            if not origins:
+                rep.holds(rule, "in-place write targets a fresh array", where=ev.loc, construct=ev.text(), entry=entry,
+                          config=res.config)
+                continue
+            what = "the caller's array" if not origins[0].startswith("self.") else "the estimator's stored field"
+            rep.violated(rule, "in-place write targets a fresh array", where=ev.loc, construct=ev.text(), entry=entry,
+                         config=res.config,
+                         msg=f"in-place update of an array that may share memory with {what} `{', '.join(origins)}` "
+                             f"(reached only through views: asarray/atleast_nd/basic slicing/attribute load, no copy): "
+                             f"the argument is modified and repeated calls give different answers")
+    return n
